@@ -133,3 +133,41 @@ Proof.
   - cbn. repeat split; try lia; vm_compute; reflexivity.
   - vm_compute. reflexivity.
 Qed.
+
+(* ---------- the guard of the in-memory path agrees with the chunker ----------
+   The in-memory UTF-8 path prints nothing exactly when the reader path (the
+   chunker) yields nothing: if the parser reaches STREAM-END without a
+   DOCUMENT-START or an error - and, as libyaml guarantees, without a
+   DOCUMENT-END before any DOCUMENT-START - the chunker yields no item at all;
+   and when the guard answers true, the chunker's first item cannot come
+   before that DOCUMENT-START or error either. *)
+Fixpoint no_end_before_start (evs : list yev) : Prop :=
+  match evs with
+  | [] => True
+  | YDocStart :: _ | YStreamEnd :: _ | YErr :: _ => True
+  | YDocEnd _ _ :: _ => False
+  | _ :: r => no_end_before_start r
+  end.
+
+Lemma no_document_no_chunks_gen data : forall evs st,
+  cs_last st = None -> has_document evs = false -> no_end_before_start evs -> chunk_items data evs st = [].
+Proof.
+  induction evs as [|e evs IH]; intros st Hl Hh Hn; [reflexivity|].
+  destruct e; cbn [has_document no_end_before_start] in *; try discriminate; try contradiction; cbn [chunk_items].
+  - apply IH; [exact Hl|exact Hh|exact Hn].
+  - apply IH; [exact Hl|exact Hh|exact Hn].
+  - now rewrite Hl.
+  - apply IH; [exact Hl|exact Hh|exact Hn].
+Qed.
+
+Theorem no_document_no_chunks data evs :
+  has_document evs = false -> no_end_before_start evs -> chunker data evs = [].
+Proof. intros H1 H2. unfold chunker. now apply no_document_no_chunks_gen. Qed.
+
+(* conversely: when the chunker yields anything, the guard answers true *)
+Theorem chunks_imply_document data evs :
+  no_end_before_start evs -> chunker data evs <> [] -> has_document evs = true.
+Proof.
+  intros Hn Hc. destruct (has_document evs) eqn:E; [reflexivity|].
+  exfalso. apply Hc. now apply no_document_no_chunks.
+Qed.
